@@ -517,6 +517,11 @@ func (e *Env) evalCallWith0(call *ast.CallExpr, st *State, args []Value) Value {
 	if v, handled := e.modelCall(call, st, cl, recvVal, args); handled {
 		return v
 	}
+	if c.LockSweep {
+		if eff := c.W.effectsOfCall(e.Info, call); eff != nil && eff.Unwinds {
+			c.protoUnwind(e, st, call, cl)
+		}
+	}
 	// contracts
 	if ct := c.contractFor(cl); ct != nil {
 		// "inline": the contract is checked on the function itself; callers see the body
